@@ -115,8 +115,8 @@ func c32MakePred(layout, quorum int) (*c32Pred, error) {
 	} else {
 		p.slots = []c32Ref{s(c32Rt, 0), s(c32R, 2), s(c32S, 0), s(c32R, 1), s(c32S, 1), s(c32R, 0), s(c32S, 2), s(c32Rt, 1)}
 	}
-	p.cores = []addr.AS{0xff00_0000_0110, 0xff00_0000_0111}
-	p.auths = []addr.AS{0xff00_0000_0110}
+	p.cores = []addr.AS{0xff00_0000_0110, 0xff00_0000_0111, 0xff00_0000_0112}
+	p.auths = []addr.AS{0xff00_0000_0110, 0xff00_0000_0111, 0xff00_0000_0112}
 	t := cppki.TRC{Version: 1, ID: cppki.TRCID{ISD: 1, Base: 1, Serial: 2}, Validity: c32PredVal, GracePeriod: time.Hour,
 		Votes: []int{p.pos(c32S, 0), p.pos(c32S, 1)}, Quorum: quorum, CoreASes: p.cores, AuthoritativeASes: p.auths, Description: "pred"}
 	var signers []*pkigen.Cert
@@ -176,7 +176,85 @@ const (
 	c32NPol
 )
 
-var c32PolName = [...]string{"none", "quorum", "core", "auth", "core-reordered"}
+// c32Policy is one edit of the policy fields. The first c32NPol entries are the ones crossed with the full vote-list
+// exploration; the remaining ones (every removal / insertion / replacement position of the core and authoritative AS
+// lists, more reorderings) are crossed with every certificate edit and every acceptable vote list in their own block.
+type c32Policy struct {
+	name  string // with position, for display
+	key   string // stable class for finding keys
+	class string // none | quorum | core | auth | reorder
+	apply func(t *cppki.TRC)
+}
+
+const c32FreshAS = addr.AS(0xff00_0000_01ff)
+
+func c32ListEdits(list string) []c32Policy {
+	sel := func(t *cppki.TRC) *[]addr.AS {
+		if list == "core" {
+			return &t.CoreASes
+		}
+		return &t.AuthoritativeASes
+	}
+	var out []c32Policy
+	posName := func(i, n int) string {
+		switch {
+		case i == 0:
+			return "first"
+		case i >= n-1:
+			return "last"
+		}
+		return "middle"
+	}
+	for i := 0; i < 3; i++ {
+		out = append(out, c32Policy{fmt.Sprintf("%s-del@%d", list, i), list + "-as-removed-" + posName(i, 3), list, func(t *cppki.TRC) {
+			l := *sel(t)
+			*sel(t) = append(append([]addr.AS{}, l[:i]...), l[i+1:]...)
+		}})
+		out = append(out, c32Policy{fmt.Sprintf("%s-repl@%d", list, i), list + "-as-replaced-" + posName(i, 3), list, func(t *cppki.TRC) {
+			l := append([]addr.AS{}, *sel(t)...)
+			l[i] = c32FreshAS
+			*sel(t) = l
+		}})
+	}
+	for i := 0; i <= 3; i++ {
+		out = append(out, c32Policy{fmt.Sprintf("%s-ins@%d", list, i), list + "-as-inserted-" + posName(i, 4), list, func(t *cppki.TRC) {
+			l := *sel(t)
+			*sel(t) = append(append(append([]addr.AS{}, l[:i]...), c32FreshAS), l[i:]...)
+		}})
+	}
+	out = append(out, c32Policy{list + "-del@1,2", list + "-as-removed-two-trailing", list, func(t *cppki.TRC) { *sel(t) = append([]addr.AS{}, (*sel(t))[:1]...) }})
+	out = append(out, c32Policy{list + "-swap@0,2", list + "-ases-reordered", "reorder", func(t *cppki.TRC) {
+		l := append([]addr.AS{}, *sel(t)...)
+		l[0], l[2] = l[2], l[0]
+		*sel(t) = l
+	}})
+	out = append(out, c32Policy{list + "-rot1", list + "-ases-reordered", "reorder", func(t *cppki.TRC) {
+		l := *sel(t)
+		*sel(t) = append(append([]addr.AS{}, l[1:]...), l[0])
+	}})
+	return out
+}
+
+var c32Policies = func() []c32Policy {
+	out := []c32Policy{
+		{"none", "none", "none", func(*cppki.TRC) {}},
+		{"quorum", "quorum", "quorum", func(*cppki.TRC) {}}, // applied through newQuorum
+		{"core", "core", "core", func(t *cppki.TRC) { t.CoreASes = append(append([]addr.AS{}, t.CoreASes...), c32FreshAS) }},
+		{"auth", "auth", "auth", func(t *cppki.TRC) {
+			t.AuthoritativeASes = append([]addr.AS{c32FreshAS}, t.AuthoritativeASes[1:]...)
+		}},
+		{"core-reordered", "core-ases-reordered", "reorder", func(t *cppki.TRC) {
+			l := append([]addr.AS{}, t.CoreASes...)
+			l[0], l[1] = l[1], l[0]
+			t.CoreASes = l
+		}},
+	}
+	out = append(out, c32ListEdits("core")...)
+	out = append(out, c32ListEdits("auth")...)
+	return out
+}()
+
+func c32PolNameOf(i int) string { return c32Policies[i].name }
 
 const (
 	c32SigGood = iota
@@ -271,7 +349,7 @@ func (s *c32Succ) String() string {
 	for _, x := range s.sigs {
 		sg = append(sg, fmt.Sprintf("%v:%d", x.who, x.mode))
 	}
-	return fmt.Sprintf("%s hdr=%s pol=%s edits=%v order=%v votes=%v sigs=%v", s.pred.name, c32HdrName[s.hdr], c32PolName[s.policy], s.edits, s.order, s.votes, sg)
+	return fmt.Sprintf("%s hdr=%s pol=%s edits=%v order=%v votes=%v sigs=%v", s.pred.name, c32HdrName[s.hdr], c32PolNameOf(s.policy), s.edits, s.order, s.votes, sg)
 }
 
 // certs returns the successor's certificate list (by reference) after the edits.
@@ -396,8 +474,8 @@ func c32Spec(s *c32Succ) (c32Verdict, string) {
 			}
 		}
 	}
-	if regular && (s.policy == c32PolQuorum || s.policy == c32PolCore || s.policy == c32PolAuth) {
-		return c32Reject, "regular:policy-changed:" + c32PolName[s.policy]
+	if pc := c32Policies[s.policy]; regular && (pc.class == "quorum" || pc.class == "core" || pc.class == "auth") {
+		return c32Reject, "regular:policy-changed:" + pc.key
 	}
 	// newly introduced voting certificates
 	for _, c := range s.certs() {
@@ -434,8 +512,8 @@ func c32Spec(s *c32Succ) (c32Verdict, string) {
 	if dup {
 		return c32Either, "duplicate-votes-but-quorum-of-distinct"
 	}
-	if regular && s.policy == c32PolCoreOrder {
-		return c32Either, "regular:core-ases-reordered"
+	if pc := c32Policies[s.policy]; regular && pc.class == "reorder" {
+		return c32Either, "regular:" + pc.key
 	}
 	req := map[c32Ref]bool{}
 	for _, q := range required {
@@ -516,14 +594,7 @@ func (s *c32Succ) payload() cppki.TRC {
 		t.Description = "invalid: empty authoritative AS list"
 		t.AuthoritativeASes = nil
 	}
-	switch s.policy {
-	case c32PolCore:
-		t.CoreASes = append(t.CoreASes, 0xff00_0000_0112)
-	case c32PolAuth:
-		t.AuthoritativeASes = []addr.AS{0xff00_0000_0111}
-	case c32PolCoreOrder:
-		t.CoreASes[0], t.CoreASes[1] = t.CoreASes[1], t.CoreASes[0]
-	}
+	c32Policies[s.policy].apply(&t)
 	for _, r := range s.certs() {
 		t.Certificates = append(t.Certificates, c32Cert(r).X)
 	}
@@ -606,7 +677,7 @@ func (cr *c32Runner) judge(s *c32Succ, inMemory bool) {
 		r.Outcome("rejected-as-required")
 	case c32Accept:
 		if !accepted {
-			r.Violation("rejected-legitimate:"+reason+":policy-"+c32PolName[s.policy], map[string]any{"case": s.String(), "edits": c32EditClass(s), "error": verr.Error()})
+			r.Violation("rejected-legitimate:"+reason+":policy-"+c32Policies[s.policy].key, map[string]any{"case": s.String(), "edits": c32EditClass(s), "error": verr.Error()})
 		}
 		r.Outcome("accepted:" + reason)
 	case c32Either:
@@ -624,7 +695,7 @@ func c32EditClass(s *c32Succ) string {
 		k = append(k, fmt.Sprintf("%v-%v", e.kind, e.class))
 	}
 	sort.Strings(k)
-	return strings.Join(k, "+") + "/" + c32PolName[s.policy]
+	return strings.Join(k, "+") + "/" + c32PolNameOf(s.policy)
 }
 
 // everyone: every certificate that could conceivably be asked for signs correctly.
@@ -912,6 +983,24 @@ func TestC32(t *testing.T) {
 			}
 		}
 		r.Extra["reordered_blocks"] = len(ojobs)
+		// core / authoritative AS list edits at every position (removal, replacement, insertion, two trailing entries
+		// removed, reorderings) x every certificate-set edit, successor in predecessor order
+		nOrder := len(ojobs)
+		for _, p := range preds {
+			if !mc.Thorough() && p.layout == 1 {
+				continue
+			}
+			for _, es := range editSets {
+				if len(es) > 1 && (!mc.Thorough() || p.layout == 1) {
+					continue
+				}
+				for pol := c32PolCore; pol < len(c32Policies); pol++ {
+					ojobs = append(ojobs, ojob{p, es, pol, c32Order{}})
+				}
+			}
+		}
+		r.Extra["as_list_policy_blocks"] = len(ojobs) - nOrder
+		r.Extra["policies"] = len(c32Policies)
 		r.Extra["orders"] = len(orders)
 		mc.ParallelFor(len(ojobs), func(ji int) {
 			if r.OutOfBudget() {
